@@ -191,6 +191,8 @@ _u08.append(_pm('C08_repcycles.cpp', 'rep_chain_rm', flavour=2, rep=1, removable
 _u08.append(_pm('C08_repcycles.cpp', 'rep_ru_tet6', flavour=1, rep=1, m=6, nv=4, weight=10))
 _kf8 = _pm('C08_repcycles.cpp', 'rep_ru_tet6_kf', flavour=1, rep=1, m=6, nv=4, extra=['VP_KF_RUREP'], weight=10); _kf8['kf'] = 'C08-ru-cycle-from-inverse'; _u08.append(_kf8)
 _kf8b = _pm('C08_repcycles.cpp', 'rep_ru_rm_norows_kf', flavour=1, rep=1, removable=1, m=5, extra=['VP_RM=2'], weight=8, must=()); _kf8b['kf'] = 'C08-ru-remove-last-stale-row'; _u08.append(_kf8b)
+for fl in (1, 2):
+    _u08.append(_pm('C08_repcycles.cpp', 'rep_%s_cone11' % _FL[fl], flavour=fl, rep=1, m=11, nv=4, extra=['VP_PREFIX_CONE', 'VP_FORKCELL'], weight=12))
 _u08.append(_pm('C08_repcycles.cpp', 'rep_chain_tet6', flavour=2, rep=1, m=6, nv=4, weight=10))
 for fl in (1, 2):
     _u08.append(_pm('C08_repcycles.cpp', 't_rep_%s_tet8' % _FL[fl], flavour=fl, rep=1, removable=1, m=8, nv=4, extra=['VP_RM=2'], tiers=['thorough'], weight=40))
@@ -219,6 +221,7 @@ PROPS['C17'] = dict(
   outside=['more than 5 vertices', 'histories longer than k', 'geometric (point-carrying) complexes'],
   units=[U('skbl_n4k3', 'C17_skbl.cpp', ['VP_N=4', 'VP_K=3'], weight=6, must_reach=_t17), U('skbl_full_n4k2', 'C17_skbl.cpp', ['VP_N=4', 'VP_K=2', 'VP_START_FULL'], weight=6, must_reach=['end', 'remove_star', 'contract_edge']),
          U('skbl_full_n4k2_kf', 'C17_skbl.cpp', ['VP_N=4', 'VP_K=2', 'VP_START_FULL', 'VP_KF_STAR'], weight=4, must_reach=[], kf='C17-remove-star-sub-blocker'),
+         U('skbl_graph_n5k1', 'C17_skbl.cpp', ['VP_N=5', 'VP_K=1', 'VP_START_GRAPH'], weight=20, must_reach=['end', 'remove_star', 'contract_edge', 'add_simplex']),
          U('skbl_n4k4', 'C17_skbl.cpp', ['VP_N=4', 'VP_K=4'], tiers=['thorough'], weight=30, must_reach=_t17), U('skbl_full_n5k2', 'C17_skbl.cpp', ['VP_N=5', 'VP_K=2', 'VP_START_FULL'], weight=30, must_reach=['end', 'remove_star'])])
 
 # ------------------------------------------------------------------------------------------------ C20
@@ -226,7 +229,7 @@ PROPS['C20'] = dict(
   explanation='Bounded symbolic execution of the real Permutahedral_representation iterators (vertices, faces, facets, cofaces, cofacets, is_face_of) and of Freudenthal_triangulation::locate_point / barycenter (clang IR of the headers in /repo, Eigen included): the base vertex is symbolic, the ordered set partition ranges over the generated list of all ordered partitions of {0..d} (forked by the solver), the query point over a quarter-integer grid; the face lattice clauses are asserted as vertex-set statements and point location by the exact rational characterisation of the relative interior.',
   bounds=dict(quick='d=2 (13 ordered partitions) and d=3 (75): all simplices around a symbolic base vertex in [-1,1]^d; is_face_of against a second symbolic simplex (d=2); point location on the grid {-1,-3/4,..,1}^d for d=2,3; d=4 (541 partitions) for the face/coface lattice incl. completeness of coface_range (count of refinements, listed once)', thorough='+ point location d=4'),
   outside=['Coxeter_triangulation and general affine maps (point location goes through Eigen ColPivHouseholderQR::solve on symbolic data)', 'query points off the quarter-integer grid', 'ambient dimension above 4'],
-  units=[U('perm_d2', 'C20_coxeter.cpp', ['VP_D=2'], weight=5), U('perm_d3', 'C20_coxeter.cpp', ['VP_D=3', 'VP_NO_SECOND'], weight=10), U('locate_d2', 'C20_coxeter.cpp', ['VP_D=2', 'VP_LOCATE'], weight=4), U('locate_d3', 'C20_coxeter.cpp', ['VP_D=3', 'VP_LOCATE'], weight=8),
+  units=[U('perm_d2', 'C20_coxeter.cpp', ['VP_D=2'], weight=5), U('perm_d3', 'C20_coxeter.cpp', ['VP_D=3', 'VP_NO_SECOND'], weight=10), U('locate_d2', 'C20_coxeter.cpp', ['VP_D=2', 'VP_LOCATE'], weight=4), U('locate_d3', 'C20_coxeter.cpp', ['VP_D=3', 'VP_LOCATE'], weight=8), U('locate_offset_d2', 'C20_coxeter.cpp', ['VP_D=2', 'VP_LOCATE', 'VP_OFFSET'], weight=6), U('locate_offset_d3', 'C20_coxeter.cpp', ['VP_D=3', 'VP_LOCATE', 'VP_OFFSET'], weight=12),
          U('perm_d4', 'C20_coxeter.cpp', ['VP_D=4', 'VP_NO_SECOND'], weight=40), U('locate_d4', 'C20_coxeter.cpp', ['VP_D=4', 'VP_LOCATE'], tiers=['thorough'], weight=30)])
 
 # ------------------------------------------------------------------------------------------------ C04
@@ -256,6 +259,8 @@ _u15 += [U('st_serial_short_kf', 'C15_st.cpp', ['VP_OPT=0', 'VP_N=3', 'VP_SERIAL
 for fl in range(1, 3):
     for col, z2 in (('INTRUSIVE_SET', 1), ('LIST', 1), ('HEAP', 1)) if fl == 1 else (('INTRUSIVE_SET', 1), ('INTRUSIVE_LIST', 0), ('VECTOR', 1)):
         _u15.append(_pm('C15_matrix.cpp', 'mat_%s_%s' % (_FL[fl], col.lower()), col=col, z2=z2, flavour=fl, rows=1 if col not in ('HEAP',) else 0, removable=1, rep=1 if fl == 1 else 0, m=4, weight=6, must=('end', 'copy-ctor', 'copy-assign', 'self-assign', 'move-ctor', 'move-assign', 'swap', 'mutate-source', 'mutate-copy')))
+_u15.append(_pm('C15_matrix.cpp', 'mat_ru_vine_pending_swap', flavour=1, idx=1, vine=1, removable=1, rep=0, m=4, weight=8, must=('end', 'copy-ctor', 'copy-assign', 'swap', 'preswap')))
+_u15.append(_pm('C15_matrix.cpp', 'mat_ru_vine_pending_swap_vector_container', flavour=1, idx=1, vine=1, removable=1, rep=0, m=4, extra=['VP_MAPC=0'], weight=8, must=('end', 'copy-ctor', 'copy-assign', 'swap', 'preswap')))
 _kf15 = _pm('C15_matrix.cpp', 'mat_ru_moved_from_kf', flavour=1, removable=1, rep=1, m=4, extra=['VP_KF_MOVED'], weight=4, must=()); _kf15['kf'] = 'C15-moved-from-matrix'; _u15.append(_kf15)
 _kf15b = _pm('C15_matrix.cpp', 'mat_ru_zp_moved_from_kf', col='LIST', z2=0, flavour=1, removable=1, rep=1, m=4, extra=['VP_KF_MOVED'], weight=4, must=()); _kf15b['kf'] = 'C15-moved-from-matrix'; _u15.append(_kf15b)
 PROPS['C15'] = dict(
@@ -326,6 +331,7 @@ PROPS['C18'] = dict(
   outside=['non-dyadic data (comparison would need error bounds)', 'exponents p other than 1, 2, infinity', 'file constructors (iostream)'],
   units=[U('land_pointwise_m2', 'C18_landscape.cpp', ['VP_M=2', 'VP_MODE=0'], weight=5, must_reach=['end', 'pointwise']), U('land_algebra_m2', 'C18_landscape.cpp', ['VP_M=2', 'VP_MODE=1'], weight=10, must_reach=['end', 'algebra']),
          U('land_pointwise_m4_ties', 'C18_landscape.cpp', ['VP_M=4', 'VP_MODE=0', 'VP_NB=2', 'VP_NL=4', 'VP_L0=2'], weight=8, must_reach=['end', 'pointwise']),
+         U('land_gridded_algebra_m2', 'C18_landscape.cpp', ['VP_M=2', 'VP_MODE=2'], weight=10, must_reach=['end', 'gridded-algebra']),
          U('land_pointwise_m3', 'C18_landscape.cpp', ['VP_M=3', 'VP_MODE=0'], tiers=['thorough'], weight=30, must_reach=['end']), U('land_algebra_m3', 'C18_landscape.cpp', ['VP_M=3', 'VP_MODE=1'], tiers=['thorough'], weight=60, must_reach=['end'])])
 
 # ------------------------------------------------------------------------------------------------ C19
